@@ -640,6 +640,11 @@ class PacketTransmitter(Elaboratable):
                     # Handle the next packet, or wait for one.
                     m.next = "DISPATCH_PACKET"
 
+                # If the link goes down, our queues are flushed (see "Reset Handling" below); there's nothing
+                # left to send until the next link session.
+                with m.If(~self.enable):
+                    m.next = "DISPATCH_PACKET"
+
 
             # WAIT_FOR_RETRY -- we're retransmitting all of the non-acknowledged packets, with the DL bit set;
             # but only after the receiver transmits LRTY.
@@ -657,6 +662,11 @@ class PacketTransmitter(Elaboratable):
                         with m.If(~self.retry_required):
                             m.d.ss += retry_pending.eq(0)
                         m.next = "DISPATCH_PACKET"
+
+                # If the link goes down, there's nothing left to retransmit: everything that was awaiting
+                # acknowledgement is flushed, and the next link session starts afresh.
+                with m.If(~self.enable):
+                    m.next = "DISPATCH_PACKET"
 
 
         #
